@@ -91,7 +91,7 @@ def run(tier):
         sc["burst"] = True
         sc["hold"] = "cw.row"
         scen.append(sc)
-    seqfam.run_scenarios(res, scen, "TraceBatch", tag="batch", relayout_p=0.3, retype_p=0.3)
+    seqfam.run_scenarios(res, scen, "TraceBatch", tag="batch", relayout_p=0.3, retype_p=0.3, rename_p=0.3)
     res.cov["distinct_nontrivial"] = len({json.dumps(s["rows"], sort_keys=True) + s["sql"] for s in scen if len(s["rows"]) > 1})
     res.cov["rule"] = ("every key sequence of the TLA+ Counting model at the stated bounds (universes: plain keys, separator-like keys, NULL/missing/empty keys, two-column keys) "
                        "plus seeded longer inputs, each replayed in lock-step on the real engine; distinct = distinct (SQL, rows)")
